@@ -54,6 +54,47 @@ def harness_panic(stderr, external):
     return own
 
 
+# account-name classes for a distributed Generate (ApiShapes.Str plus "underscore")
+CLUSTER_NAMES = ["DW/okA", "DW/_hidden", "DW/", "DW", "Nowhere/x", "DW/okA", "DW/\u00e9\u4e16\u754c", "DW/" + "a" * 1500, "DW/_x2", "DW/okB", "DW/ok C", "DW//x", "/x"]
+CLUSTER_NT = [(3, 2), (2, 2), (3, 3), (3, 1), (4, 3), (2, 1), (0, 0), (3, 2)]
+
+
+def cluster_generate_phase(tier, seed, wd, verdict):
+    import dkgfamily
+    calls = []
+    k = 0
+    for name in CLUSTER_NAMES:
+        for n, t in (CLUSTER_NT if tier != "quick" else CLUSTER_NT[:3] + [CLUSTER_NT[(len(name) + seed) % len(CLUSTER_NT)]]):
+            k += 1
+            calls.append(dict(inst=1 + k % 3, caller="c1", msg="generate", account=name if name not in ("DW/okA", "DW/okB") else name + str(k % 2), n=n, t=t))
+    sc = dict(id="C20-cluster", ids=[1, 2, 3], n=3, t=2, initiator=1, account="DW/unused", generate=False, calls=calls)
+    deaths = []
+    res = None
+    for attempt in range(3):
+        evs, rc, err = dkgfamily.run_dkgdrv([dict(sc, id="C20-cluster-%d" % attempt)], wd, "c20cluster%d" % attempt, timeout=1200, dirk=build_dirk())
+        cl = [e for e in evs if e["ev"] == "Call"]
+        if rc != 0 and not cl:
+            raise Inconclusive("cluster of dirk binaries (distributed Generate): dkgdrv exited %s: %s" % (rc, err[-300:]))
+        dead = [e for e in cl if e.get("crashed")]
+        res = dict(requests=len(cl), succeeded=sum(1 for e in cl if e["result"] == "ok"), refused=sum(1 for e in cl if e["result"] != "ok"))
+        if not dead:
+            if deaths:
+                continue
+            break
+        deaths.append(dict(request=calls[dead[0]["i"]], err=dead[0].get("err", "")[:200]))
+        if len(deaths) >= 2:
+            break
+    if len(deaths) >= 2:
+        verdict.violation("crash:distributed-generate:%s" % json.dumps(deaths[0]["request"], sort_keys=True)[:120],
+                          "an instance of a cluster of real dirk binaries DIED while a client's distributed Generate was handled (seen on two fresh clusters): %s" % deaths[0],
+                          dict(cluster=sc, observations=deaths))
+    elif deaths:
+        raise Inconclusive("an instance died once during a distributed Generate but not on the following attempts: %s" % deaths[0])
+    if res and res["succeeded"] < 2:
+        raise Inconclusive("distributed Generate on the cluster: only %d requests succeeded" % res["succeeded"])
+    return res
+
+
 def run(prop, tier, seed):
     t0 = time.time()
     wd = workdir(prop)
@@ -177,6 +218,13 @@ def run(prop, tier, seed):
                     raise Inconclusive("concurrent phase (%s): apidrv exited %s: %s" % (target_name, rc_s, err_s[-300:]))
                 if len(hangs) >= 2 or len(deaths) >= 2:
                     break
+        # phase 3: DISTRIBUTED account creation.  A single server has no peers to generate a key with - the request is refused before any
+        # exchange starts.  Here a client asks each instance of a cluster of three real dirk binaries for distributed accounts over the
+        # account-name classes (names the wallet only refuses when the account is stored, i.e. after the whole exchange) and (n, t)
+        # combinations; after every request every instance must still be there and answer.
+        cluster = None
+        if not verdict.violations:
+            cluster = cluster_generate_phase(tier, seed, wd, verdict)
         if len(deaths) >= 2:
             verdict.violation("crash:concurrent-load", "the daemon DIED under concurrent client load (listings with new account expressions, account creation, signing requests "
                               "addressing the created accounts); seen again on a fresh server: %s" % deaths[0], dict(storm=storm_plan["storm"], observations=deaths))
@@ -195,7 +243,7 @@ def run(prop, tier, seed):
                         "combinations; each is concretised (seeded byte fillings), sent over real TLS to the real gRPC service from an authenticated client (key-generation "
                         "messages from non-peers) and followed by a liveness probe from another client; distinct = distinct (method, shape) pairs",
                    samples=msgs[:3], per_method=stats, answered=answered, states=max(r.distinct, 1), transitions=sum(v["messages"] for v in stats.values()),
-                   traces_validated_against_impl=done, crashes=ncrashes, served_by=["in-process services/api/grpc", "the dirk binary"], concurrent_phase=storm, exhaustive=False)
+                   traces_validated_against_impl=done, crashes=ncrashes, served_by=["in-process services/api/grpc", "the dirk binary"], concurrent_phase=storm, distributed_generate_on_cluster=cluster, exhaustive=False)
         write_evidence(prop, tier, seed, "exploration", cov, time.time() - t0, violations=len(verdict.violations),
                        assumptions=["decides crash-freedom over the shape abstraction, not over all byte contents",
                                     "TLC is the keeper of the shape catalogue and of the pair-coverage obligation; the covering set is built greedily by the harness"])
